@@ -45,6 +45,9 @@ def table_valid(eid, cif, uif, lab):
     return True
 
 
+UNKNOWN_COLS = ["name", "type", "parameters", "parent", "extra_data", "what", "repeat", "bind", "choices", "children", "save_to", "relevant", "Label2", "entity_idx"]
+
+
 def gen_table(tier):
     for bits in itertools.product((0, 1), repeat=4):
         for ei, expr in enumerate(EXPRS):
@@ -53,6 +56,9 @@ def gen_table(tier):
                     if shape != "one" and (ds != "trees" or ei > 1):
                         continue
                     yield {"k": "table", "bits": list(bits), "expr": ei, "ds": ds, "shape": shape}
+        # unknown entities columns, including names that happen to be fields of pyxform's element classes
+        for col in UNKNOWN_COLS:
+            yield {"k": "table", "bits": list(bits), "expr": 0, "ds": "trees", "shape": "extra", "col": col}
 
 
 def gen_saveto_names(tier):
@@ -102,7 +108,7 @@ def build(case):
         if case["shape"] == "two":
             ent = [row, dict(row, dataset="other")]
         if case["shape"] == "extra":
-            ent = [dict(row, foo="bar")]
+            ent = [dict(row, **{case.get("col", "foo"): "bar"})]
         rows = [dict(r) for r in base]
         rows[0]["save_to"] = "prop"
         return {"survey": rows, "entities": ent}, None
